@@ -461,6 +461,72 @@ func (env *specEnv) call(e *ast.CallExpr) Val {
 			// ptr[T](n): the reference recorded by a ghost counter (lastres/lastarg), typed as *T
 			return Val{ts: []Term{env.eval(e.Args[0]).ts[0]}}
 		}
+		if id, isID := ix.X.(*ast.Ident); isID && (id.Name == "verif_resval" || id.Name == "verif_argval") {
+			// resval[T](name): the (first) result of the last call counted by `name`, typed as T - all its leaves;
+			// argval[T](name, i): argument i of that call (interface invocations: the receiver is argument 0)
+			tv := env.info.Types[e.Args[0]]
+			if tv.Value == nil {
+				return env.fail(e, "resval / argval need a constant counter name")
+			}
+			cn := strings.Trim(tv.Value.ExactString(), `"`)
+			base, maxLeaves := "$res:"+cn, 11
+			if id.Name == "verif_argval" {
+				iv := env.info.Types[e.Args[1]]
+				if iv.Value == nil {
+					return env.fail(e, "argval needs a constant argument index")
+				}
+				base, maxLeaves = fmt.Sprintf("$arg:%s:%s", cn, iv.Value.ExactString()), 4
+			}
+			want := env.typeOf(ix.Index)
+			ls := leaves(want)
+			tkey := cn
+			if id.Name == "verif_argval" {
+				tkey = base
+			}
+			if env.calleeGhost != nil {
+				// a callee's contract applied at a call site: its ghost records describe the callee's own execution,
+				// unknown to the caller
+				v := Val{}
+				for k, l := range ls {
+					gk := fmt.Sprintf("%s#%d", base, k)
+					t, ok := env.calleeGhost[gk]
+					if !ok {
+						t = x.freshConst("calleeghost", l.Sort.String())
+						env.calleeGhost[gk] = t
+					}
+					v.ts = append(v.ts, t)
+				}
+				return v
+			}
+			if got, seen := x.resTypes[tkey]; seen && !types.Identical(got, want) {
+				return env.fail(e, fmt.Sprintf("%s[%s]: the calls counted by %q have %s there", id.Name[6:], want, cn, got))
+			}
+			if _, isIface := want.Underlying().(*types.Interface); isIface || len(ls) == 0 || len(ls) > maxLeaves || env.calleeGhost != nil {
+				return env.fail(e, "resval / argval: unsupported shape or context")
+			}
+			var ts []Term
+			for k, l := range ls {
+				key := base
+				if k > 0 {
+					key = fmt.Sprintf("%s:%d", base, k)
+				}
+				x.regKey(key, "Int")
+				hh := env.heap
+				if env.inPrev {
+					hh = env.prev
+				}
+				t := x.hget(hh, key)
+				switch l.Sort {
+				case SInt:
+				case SBool:
+					t = eq(t, "1")
+				default:
+					return env.fail(e, "resval / argval: value with an array-sorted leaf")
+				}
+				ts = append(ts, t)
+			}
+			return Val{ts: ts}
+		}
 		if id, isID := ix.X.(*ast.Ident); isID && id.Name == "verif_istype" {
 			// istype[T](x): the dynamic type of interface value x is T (T concrete) / implements T (T interface)
 			t := env.typeOf(ix.Index)
